@@ -26,6 +26,7 @@ EXPLANATION = (
     " Round 4: the 'same canvas object as last time' shortcut of draw_screen reads screen_buf (which clear(), resize and stop reset); (11) LOOPFRESH on per-row state of the two draw_screen implementations."
     " Round-4 triage: (12) the erase-to-end-of-line shortcut is disabled for every style flag _attrspec_to_escape() emits that is drawn on blank cells (all but bold / italics / blink). Round 5: (13) every value given to the rendition model of draw_screen is sent on every path to its next use; (14) _last_row reads row[-2] only under a test of len(row); (15) every draw_screen reads all three components of a run (the HTML back-end used to drop the charset flag); (3, extended) `_resized` is tested again between the write loop and the screen_buf record."
     ' Round 6: (12) the erase-shortcut helper resolves an AttrSpec object to itself; (16) TAINT: every piece of cell text decoded for output went through the control-character filter - also the cell written with the insert trick (fix 8553a8b); (17) a draw that ends with the IBM PC font on switches it off.'
+    ' Round 7: (18) the erase shortcut strips exactly the byte its enabling test found at the end of the run.'
 )
 NOT_DECIDED = "The effect of the escape stream on a terminal across frame histories, the erase-to-end-of-line and insert-mode equivalences, no-scroll - these need a terminal interpreter, i.e. execution."
 ASSUMPTIONS = []
@@ -633,6 +634,28 @@ def rule_font_off_at_end(ctx: Ctx) -> RuleResult:
     return rr
 
 
+def rule_strip_what_was_tested(ctx: Ctx) -> RuleResult:
+    """The erase-to-end-of-line shortcut replaces the trailing *blanks* of a row by ESC[K.  It is enabled by a test of
+    the run's last byte (`run[-1:] == b" "`); what is then cut off has to be exactly that byte: `run.rstrip(b" ")`.
+    A bare `rstrip()` also removes \\t \\n \\v \\f \\r - bytes that a narrow encoding paints as one-column '?' cells
+    - so the terminal shows blanks where the canvas has '?' (on full and incremental draws alike)."""
+    p = ctx.p
+    rr = RuleResult("SIB", "C04.18", "the erase shortcut strips exactly the byte its enabling test found at the end of the run (rstrip(b' ') under `run[-1:] == b' '`)", floor=1)
+    fi = p.func("urwid.display._raw_display_base.Screen.draw_screen")
+    for t in [n for n in fi.own_nodes() if isinstance(n, ast.If)]:
+        tails = [c for c in ast.walk(t.test) if isinstance(c, ast.Compare) and len(c.ops) == 1 and isinstance(c.ops[0], ast.Eq) and isinstance(c.left, ast.Subscript) and isinstance(c.left.slice, ast.Slice) and isinstance(c.comparators[0], ast.Constant) and isinstance(c.comparators[0].value, bytes)]
+        for c in tails:
+            what = c.comparators[0].value
+            var = ast.unparse(c.left.value)
+            for st in [x for b in t.body for x in ast.walk(b) if isinstance(x, ast.Call) and isinstance(x.func, ast.Attribute) and x.func.attr in ("rstrip", "strip", "lstrip") and ast.unparse(x.func.value) == var]:
+                arg = st.args[0].value if st.args and isinstance(st.args[0], ast.Constant) else None
+                ok = st.func.attr == "rstrip" and arg == what
+                rr.inst(f"{norm(c, 40)} -> {norm(st, 30)}", True, {"test": norm(c, 50), "strip": norm(st, 40), "same_byte": ok})
+                if not ok:
+                    rr.add(finding("SIB", fi, st, f"`{norm(st, 40)}` removes more than the {what!r} that `{norm(c, 40)}` established at the end of the run: control-whitespace bytes in front of the trailing blanks (\\t, \\r ... - one-column '?' cells in a narrow encoding) are dropped and erased to blanks, the terminal no longer shows what the canvas contains", construct=f"strip {norm(st, 30)} does not match the tested byte"))
+    return rr
+
+
 def run(ctx: Ctx):
     r6 = c17.rule_palette_cache(ctx, "C04.6")
     r7 = c17.rule_palette_total(ctx, "C04.7")
@@ -640,12 +663,13 @@ def run(ctx: Ctx):
     r8.clause = "C04.8"
     r9 = accum.run_accum(ctx.p, "C04.9", "C04", floor=1)
     r11 = loopfresh.run_loopfresh(ctx.p, "C04.11", "C04", floor=3)
-    return [rule_triple(ctx), rule_last_row_triple(ctx), rule_cursor(ctx), rule_repaint(ctx), rule_charset_first(ctx), rule_html(ctx), rule_html_cursor_columns(ctx), r6, r7, r8, r9, r11, rule_erase_shortcut(ctx), rule_rendition_model(ctx), rule_last_row_neighbour(ctx), rule_cell_components(ctx), rule_cell_text_filtered(ctx), rule_font_off_at_end(ctx)]
+    return [rule_triple(ctx), rule_last_row_triple(ctx), rule_cursor(ctx), rule_repaint(ctx), rule_charset_first(ctx), rule_html(ctx), rule_html_cursor_columns(ctx), r6, r7, r8, r9, r11, rule_erase_shortcut(ctx), rule_rendition_model(ctx), rule_last_row_neighbour(ctx), rule_cell_components(ctx), rule_cell_text_filtered(ctx), rule_font_off_at_end(ctx), rule_strip_what_was_tested(ctx)]
 
 
 _RW = "urwid/display/_raw_display_base.py"
 _HT = "urwid/display/html_fragment.py"
 MUTANTS = [
+    Mut("erase-shortcut-strips-all-whitespace", _RW, "urwid.display._raw_display_base.Screen.draw_screen", 'run.rstrip(b" ")', "run.rstrip()", "SIB|display._raw_display_base.Screen.draw_screen|strip run.rstrip() does not match the tested byte"),
     Mut("insert-cell-unfiltered", _RW, "urwid.display._raw_display_base.Screen.draw_screen", "                    if insertcs != \"U\":\n                        inserttext = inserttext.translate(UNPRINTABLE_TRANS_TABLE)\n", "", "TAINT|display._raw_display_base.Screen.draw_screen|cell text inserttext decoded without the control-character filter"),
     Mut("draw-ends-with-pc-font-on", _RW, "urwid.display._raw_display_base.Screen.draw_screen", "        if last_charset_flag == \"U\":\n            # the next draw starts from the normal font: SGR 0 does not switch the IBM PC mapping off everywhere\n            output.append(escape.IBMPC_OFF)\n", "", "PAIR|display._raw_display_base.Screen.draw_screen|draw can end with the IBM PC font on"),
     Mut("el-shortcut-attrspec-object-taken-for-default", "urwid/display/_raw_display_base.py", "urwid.display._raw_display_base.Screen.draw_screen", "            a = self._pal_attrspec.get(a, a)\n", "            a = self._pal_attrspec.get(a, self._pal_attrspec[None])\n", "TAB|display._raw_display_base.Screen.draw_screen.<locals>.using_standout_or_underline|using_standout_or_underline: AttrSpec object not resolved to itself"),
